@@ -334,7 +334,50 @@ func planCanon(p *Prog, stdlib, methods bool) canonPlan {
 						}
 					}
 					return true
+				case *ast.ReturnStmt:
+					// return ptr.Deref(P, D)  ->  if P != nil { return *P }; return D
+					if len(x.Results) != 1 || !free(x.Pos(), x.End()) {
+						return true
+					}
+					if call, isCall := ast.Unparen(x.Results[0]).(*ast.CallExpr); isCall && len(call.Args) == 2 && stdName(call.Fun) == "k8s.io/utils/ptr.Deref" &&
+						isPlainOperand(call.Args[0]) && callFree(call.Args[1]) {
+						if _, isBlk := p.parents[x].(*ast.BlockStmt); isBlk {
+							pt, dt := in.text(call.Args[0].Pos(), call.Args[0].End()), in.text(call.Args[1].Pos(), call.Args[1].End())
+							fe := in.file(x.Pos())
+							fe.edits = append(fe.edits, textEdit{start: in.off(x.Pos()), end: in.off(x.End()), text: "if " + pt + " != nil {\nreturn *" + pt + "\n}\nreturn " + dt})
+							taken = append(taken, [2]token.Pos{x.Pos(), x.End()})
+							keep[pkgIdent(call.Fun)] = true
+							plan.expanded = append(plan.expanded, "return ptr.Deref as a conditional")
+							return false
+						}
+					}
+					return true
 				case *ast.AssignStmt:
+					// x := ptr.Deref(P, D)  ->  x := D; if P != nil { x = *P }
+					if (x.Tok == token.ASSIGN || x.Tok == token.DEFINE) && len(x.Lhs) == 1 && len(x.Rhs) == 1 && free(x.Pos(), x.End()) {
+						if call, isCall := ast.Unparen(x.Rhs[0]).(*ast.CallExpr); isCall && len(call.Args) == 2 && stdName(call.Fun) == "k8s.io/utils/ptr.Deref" &&
+							isPlainOperand(call.Args[0]) && callFree(call.Args[1]) {
+							if tv, has := info.Types[call.Args[1]]; has && (tv.Value == nil || tv.Value.Kind() != constant.Bool) {
+								if lid, isId := x.Lhs[0].(*ast.Ident); isId && lid.Name != "_" {
+									if _, isBlk := p.parents[x].(*ast.BlockStmt); isBlk {
+										pt, dt := in.text(call.Args[0].Pos(), call.Args[0].End()), in.text(call.Args[1].Pos(), call.Args[1].End())
+										// an untyped constant default needs the variable's type
+										rhs := dt
+										if tt, okT := typeText(info.TypeOf(x.Lhs[0]), x.Pos()); okT && x.Tok == token.DEFINE {
+											rhs = "(" + tt + ")(" + dt + ")"
+										}
+										fe := in.file(x.Pos())
+										fe.edits = append(fe.edits, textEdit{start: in.off(x.Pos()), end: in.off(x.End()),
+											text: lid.Name + " " + x.Tok.String() + " " + rhs + "\nif " + pt + " != nil {\n" + lid.Name + " = *" + pt + "\n}"})
+										taken = append(taken, [2]token.Pos{x.Pos(), x.End()})
+										keep[pkgIdent(call.Fun)] = true
+										plan.expanded = append(plan.expanded, "x := ptr.Deref as a conditional assignment")
+										return false
+									}
+								}
+							}
+						}
+					}
 					// X = min(X, Y) is `if X > Y { X = Y }` (max likewise) for plain operands X, Y
 					if x.Tok != token.ASSIGN || len(x.Lhs) != 1 || len(x.Rhs) != 1 || !free(x.Pos(), x.End()) {
 						return true
@@ -476,6 +519,23 @@ func planCanon(p *Prog, stdlib, methods bool) canonPlan {
 							result = "int"
 							body = "\tfor i, x := range s {\n\t\tif " + test + " {\n\t\t\treturn i\n\t\t}\n\t}\n\treturn -1\n"
 						}
+					case "slices.DeleteFunc":
+						// slices.DeleteFunc(E, del) of a freshly computed E (a call result: nothing else sees the clobbered
+						// backing array) is the filter loop that keeps the elements for which del is false
+						if len(x.Args) != 2 || sig.Params().Len() != 2 {
+							return true
+						}
+						if _, fresh := ast.Unparen(x.Args[0]).(*ast.CallExpr); !fresh {
+							return true
+						}
+						t0, ok0 := typeText(sig.Params().At(0).Type(), x.Pos())
+						t1, ok1 := typeText(sig.Params().At(1).Type(), x.Pos())
+						if !ok0 || !ok1 {
+							return true
+						}
+						params = []string{"s " + t0, "del " + t1}
+						result = t0
+						body = "\tvar r " + t0 + "\n\tfor _, x := range s {\n\t\tif del(x) {\n\t\t\tcontinue\n\t\t}\n\t\tr = append(r, x)\n\t}\n\treturn r\n"
 					case "k8s.io/utils/ptr.Deref", "k8s.io/utils/pointer.BoolDeref":
 						// Deref(P, true) is P == nil || *P ; Deref(P, false) is P != nil && *P (P a plain operand)
 						if len(x.Args) != 2 || !isPlainOperand(x.Args[0]) || !free(x.Pos(), x.End()) {
